@@ -99,7 +99,9 @@ def representatives(cur: frozenset, full: frozenset) -> List[str]:
     return sorted(set(list(by.values()) + extra + uns[:2]))
 
 
-def run_tokenize(chk: Check, prog: Program, length: int, alphabet: frozenset, tag: str) -> None:
+def run_tokenize(chk: Check, prog: Program, length: int, alphabet: frozenset, tag: str, remap=None) -> None:
+    """`remap` renames the rule ids (C03 re-uses this clause under its own rule id: reading text starts with tokenizing)."""
+    remap = remap or (lambda rid: rid)
     tok_cls = prog.cls("Tokenizer")
     m = prog.func("tokenizer", "Tokenizer.tokenize")
     tt = prog.cls("TOKEN_TYPES")
@@ -125,9 +127,10 @@ def run_tokenize(chk: Check, prog: Program, length: int, alphabet: frozenset, ta
             sets = [it.charsets[c.cid] for c in it.chars]
             reps = [representatives(s_, alphabet) for s_ in sets]
             label = f"len={length} padding={'dropped' if exclude else 'kept'} path: {p.cond[-200:]}"
-            key = f"C11.R1:Tokenizer.tokenize"
+            r1 = remap("C11.R1")
+            key = f"{r1}:Tokenizer.tokenize"
             if p.outcome == "bound":
-                chk.undecided("C11.R1", key + ":bound", label, p.note, m.where)
+                chk.undecided(r1, key + ":bound", label, p.note, m.where)
                 continue
             combos = list(itertools.islice(itertools.product(*reps), 400))
             bad = None
@@ -142,10 +145,11 @@ def run_tokenize(chk: Check, prog: Program, length: int, alphabet: frozenset, ta
                     bad = (s, got, want)
                     break
             if bad is None:
-                chk.ok("C11.R1", key, label, f"{len(combos)} instantiations agree with the specification", m.where)
+                chk.ok(r1, key, label, f"{len(combos)} instantiations agree with the specification", m.where)
             else:
                 s, got, want = bad
                 rid, why = _classify(s, got, want, types)
+                rid = remap(rid)
                 chk.fail(rid, f"{rid}:Tokenizer.tokenize:{why}", label,
                          f"input {s!r} (padding {'dropped' if exclude else 'kept'}): tokenizer gives {_fmt(got, types)}, "
                          f"specification requires {_fmt(want, types)}",
